@@ -185,7 +185,7 @@ def values_for(act):
     if kind == ".axisPos":
         return CHARS
     if kind == ".linePos":
-        return FLOATS
+        return FLOATS + ["1e39", "-1e39", "3.5e38"]
     if kind == ".fpoint":
         return POINTS
     if kind == ".intervals":
@@ -201,6 +201,28 @@ def _point_ok(v):
     """a blank (non-empty) coordinate makes mpt_iterator_consume copy an indeterminate buffer: not generated"""
     import re
     return not (re.fullmatch(r"[ \t]+", v) or re.search(r"[^ \t][ \t]{2,}$", v) or re.search(r"^[ \t]*[-+.0-9eE]+[^ \t][ \t]+$", v))
+
+
+def typed_values(act):
+    """(type code, number text) pairs for 'y setv': values of the handler's own type and int32 values"""
+    kind = act.split()[0]
+    own = None
+    if kind == ".conv":
+        own = act.split()[1].strip("'")
+    elif kind in (".lattr", ".intervals", ".align", ".clip"):
+        own = "y"
+    elif kind == ".linePos":
+        own = "f"
+    elif kind == ".axisPos":
+        own = "c"
+    if own is None:
+        return []
+    nums = {"y": ["0", "7", "255"], "n": ["-5", "0", "300"], "u": ["0", "42", "70000"], "f": ["0.5", "-2.25", "4.5"],
+            "d": ["0.5", "-2.25", "4.5"], "c": ["116", "53"]}[own]
+    out = [(own, x) for x in nums]
+    if own != "c":
+        out += [("i", x) for x in ("0", "3", "9", "200", "300", "-1", "70000")]
+    return out
 
 
 def presets(k):
@@ -273,6 +295,10 @@ def scripts(tier, seed, scale=1):
                             continue
                         out.append(("alt:%s:%s:%s" % (k.name, n, h[:24]),
                                     new + ["y set 0 %s %s" % (nm(n), hx(alt)), "y set 0 %s %s" % (nm(n), h), "y get 0 %s" % nm(n), "y dump 0"]))
+                # typed values through mpt_object_set_value: the property's own C type, and a 32 bit integer
+                for t, num in typed_values(act):
+                    out.append(("tv:%s:%s:%s:%s" % (k.name, n, t, num),
+                                new + pre + ["y setv 0 %s %s %s" % (nm(n), t, num), "y get 0 %s" % nm(n), "y dump 0"]))
                 for special in ("null", "nullstr"):
                     out.append(("ex:%s:%s:%s" % (k.name, n, special), new + pre + ["y set 0 %s %s" % (nm(n), special), "y dump 0"]))
                     out.append(("ex:%s:%s:%s:d" % (k.name, n, special), new + ["y set 0 %s %s" % (nm(n), special), "y dump 0"]))
